@@ -238,7 +238,17 @@ def main(argv=None):
     for o in undis:
         nat = native_out.get(o.get("_replay_id"))
         confirmed = bool(nat and not nat.get("skipped") and nat.get("failed"))
-        kf = next((k for k in known if fnmatch.fnmatch(o["name"], k["obligation"])), None)
+        if not confirmed and o.get("model") and hasattr(cm, "replay_model"):
+            # contract module's own replay of the counterexample on the real code (e.g. the firmware run on the fwsim mock)
+            try:
+                rr = cm.replay_model(o)
+            except Exception as ex:
+                rr = {"failed": False, "error": f"{type(ex).__name__}: {ex}"}
+            if rr is not None:
+                o["replay"] = rr
+                if rr.get("failed"):
+                    o["replay_confirmed"] = True
+        kf = next((k for k in known if (o["name"] in k["obligations"] if "obligations" in k else fnmatch.fnmatch(o["name"], k["obligation"]))), None)
         if kf is not None:
             known_hits.append((kf, o))
             continue
